@@ -100,7 +100,17 @@ func init() {
 		"strings.TrimSpace":     inTrimSpace,
 
 		// the file system is an arbitrary oracle: any answer, per probe
-		repoStack + "isFile": func(e *Exec, fn *ssa.Function, a []Value) Value { return e.fresh("isFile", 0) },
+		repoStack + "isFile": func(e *Exec, fn *ssa.Function, a []Value) Value {
+			if e.files == nil {
+				return e.fresh("isFile", 0)
+			}
+			// the harness declared which files exist (vSetFile)
+			acc := e.ctx.False
+			for _, f := range e.files {
+				acc = e.ctx.Or(acc, e.strEq(a[0].(*StringV), f))
+			}
+			return acc
+		},
 
 		repoStack + "unsafeString": func(e *Exec, fn *ssa.Function, a []Value) Value {
 			s := a[0].(*SliceV)
@@ -203,6 +213,14 @@ func init() {
 			x, y := a[0].(*StringV), a[1].(*SliceV)
 			return e.ctx.Bool(x.Alias != nil && !isNil(y) && x.Alias == y.Arr)
 		},
+		"vSetFile": func(e *Exec, fn *ssa.Function, a []Value) Value {
+			if e.files == nil {
+				e.files = []*StringV{}
+			}
+			e.files = append(e.files, a[0].(*StringV))
+			return nil
+		},
+		"vTempRoot": func(e *Exec, fn *ssa.Function, a []Value) Value { return e.constString("/vroot") },
 		"vNote": func(e *Exec, fn *ssa.Function, a []Value) Value { e.note("harness:" + e.goString(a[0])); return nil },
 	}
 }
